@@ -277,6 +277,9 @@ def Cur.getRidgeSpec (c : Cur) (spherical : Bool) : Except Err (RidgeSpec R) := 
   let ridges ← ridgesJ.toList.mapM (fun r => do
     let pts ← (← jarr r).toList.mapM jpoint2
     return pts.map (fun (p : P2 R) => (⟨p.x * dtr spherical, p.y * dtr spherical⟩ : P2 R)))
+  -- `WBAssertThrow(second.size() == 1 || second.size() == n_ridge_points, …)` (fixed upstream: the table was indexed unchecked)
+  let nPts := ridges.foldl (fun n r => n + r.length) 0
+  if !(second.length == 1 || second.length == nPts) then .error .other
   -- running `ridge_point_index`
   let rec go : List (List (P2 R)) → Nat → Except Err (List (List R))
     | [], _ => .ok []
@@ -544,6 +547,7 @@ def parseLineComp (isFault : Bool) (model : String) (c : Cur) : Except Err (Line
       let cf ← c.getNumVec "center fractions"
       let sf ← c.getNumVec "side fractions"
       let comps ← c.getNatVec "compositions"
+      if comps.length != cf.length || comps.length != sf.length then .error .length
       return .smooth mn mn side op comps cf sf
     else do
       let mn : R ← c.getNum "min distance slab top"
@@ -552,6 +556,7 @@ def parseLineComp (isFault : Bool) (model : String) (c : Cur) : Except Err (Line
       let tf ← c.getNumVec "top fractions"
       let bf ← c.getNumVec "bottom fractions"
       let comps ← c.getNatVec "compositions"
+      if comps.length != tf.length || comps.length != bf.length then .error .length
       return .smooth mn mx (fabs (mx - mn)) op comps tf bf
   | _ => .error .unsupported
 
@@ -622,6 +627,8 @@ def parseLine (ctx : Ctx R) (isFault : Bool) (c : Cur) (tags : List String) (cul
   let dip : P2 R := if sph then ⟨dip.x * (Scalar.pi / 180.0), dip.y * (Scalar.pi / 180.0)⟩ else dip
   let segSchema ← schemaAt c.schema ["segments", "items", "properties"]
   let defaultSegs ← parseSegments ctx isFault c.obj segSchema [c.obj]
+  -- `WBAssertThrow(!default_segment_vector.empty(), …)` (fixed upstream: `segments: []` indexed empty segment tables)
+  if defaultSegs.length == 0 then .error .other
   let n := coords.length
   let init : List (List (Segment R)) := List.replicate n defaultSegs
   let secs ← (match c.val? "sections" with
